@@ -546,7 +546,16 @@ impl<'a> GeneratorState<'a> {
                                             }
                                             let signed = self.asm(
                                                 LDA,
-                                                &ExprType::Absolute(var, false, l * 256),
+                                                &ExprType::Absolute(
+                                                    var,
+                                                    false,
+                                                    l.checked_mul(256).ok_or_else(|| {
+                                                        self.compiler_state.syntax_error(
+                                                            "Constant expression overflow",
+                                                            pos,
+                                                        )
+                                                    })?,
+                                                ),
                                                 pos,
                                                 true,
                                             )?;
@@ -595,7 +604,16 @@ impl<'a> GeneratorState<'a> {
                                             }
                                             let signed = self.asm(
                                                 LDA,
-                                                &ExprType::Absolute(var, false, -l * 256),
+                                                &ExprType::Absolute(
+                                                    var,
+                                                    false,
+                                                    l.checked_mul(-256).ok_or_else(|| {
+                                                        self.compiler_state.syntax_error(
+                                                            "Constant expression overflow",
+                                                            pos,
+                                                        )
+                                                    })?,
+                                                ),
                                                 pos,
                                                 true,
                                             )?;
